@@ -30,6 +30,7 @@ import c09_oracle as O  # noqa: E402
 
 LEVEL = "proof"
 PROPS = "TTProofs/Props/C09.lean"
+PROPS_MASTER = "TTProofs/Props/C09_Master.lean"
 GEN = "TTGen/C09_Options.lean"
 _T = {}
 
@@ -327,13 +328,17 @@ def run(ck: Check):
         "times[0] = 0, epoch times strictly increasing, node heights below the origin; rates positive; one sample (batched "
         "evaluation is C10's subject)",
         "with a removal probability the code returns the density of the labelled tree (adds (n-1) log 2); the oracles follow",
-        "the master-equation comparison is numerical (RK4, rel 1e-6): exploration, not proof",
+        "master equations: that the coded closed forms solve them, uniquely, on every epoch and glued over all epochs is PROVED "
+        "(Props/C09_Master.lean); the RK4 integration of those same equations along the tree (rel 1e-6) ties that specification to "
+        "the implementation numerically",
     ]
     ck.trusted += ["torch.searchsorted / gather / exp / log / sqrt as modelled", "mpmath (constant-rate oracle)"]
     lean_src, tr_ok, note, table = tr_fromjson.translate(REPO)
     if not tr_ok:
         ck.notes.append("translator: " + note)
-    ok, broken = ck.lean_side({GEN: lean_src}, ["TTGen.C09_Options", "TTProofs.Props.C09", "drv_c09"], PROPS)
+    ok, broken = ck.lean_side({GEN: lean_src}, ["TTGen.C09_Options", "TTProofs.Props.C09", "TTProofs.Props.C09_Master", "drv_c09"], PROPS)
+    # the companion file Props/C09_Master.lean (closed forms solve the master equations, uniqueness, assembly) is built and
+    # audited by common.lean_side together with Props/C09.lean
     ck.extra["translator_recognised_source"] = tr_ok
     drv = None
     try:
